@@ -121,6 +121,7 @@ func (c Counters) Merge(o Counters) {
 		c[k] += v
 	}
 }
+
 // Prefixed returns a copy with every key prefixed.
 func (c Counters) Prefixed(p string) Counters {
 	o := Counters{}
